@@ -8,9 +8,9 @@ COMPONENTS = ["s_retry", "s_shouldretry", "retrycfg"]
 T4 = ["Retry"]
 PROOF_MODULES = ["GrpcProofs.Properties.C18"]
 THEOREMS = ["GrpcProofs.C18." + t for t in (
-    "retry_only_if", "transparent_only_if_unprocessed", "attempts_bounded", "effective_max_is_min",
-    "replay_exact", "no_new_attempt_when_committed", "commit_on_delivery", "commit_on_buffer_limit",
-    "fuel_suffices")]
+    "retry_only_if", "transparent_only_if_unprocessed", "effective_max_is_min", "attempts_bounded",
+    "replay_exact", "retry_replays_buffer", "no_new_attempt_when_committed", "commit_on_delivery",
+    "commit_on_buffer_limit", "negative_limit_commits_at_once", "fuel_suffices")]
 DESIGN_REF = "DESIGN.md section 8, C18"
 TECHNIQUE = ("Lean 4 theorems (case analysis of shouldRetry in source order; invariants over all application op sequences and all "
              "server scripts for the replay buffer / attempt logs) + T2 differential run of a real ClientConn over bufconn against a "
